@@ -231,6 +231,57 @@ func genMutants(p *Prog, f *FuncInfo, src []byte, rel string) []mutant {
 	return out
 }
 
+// genRenames: one behaviour-preserving variant per local variable / parameter / named result of f: the variable is
+// renamed consistently. Any new report on such a variant is a FALSE ALARM of the checker (a rule looked at a name).
+func genRenames(p *Prog, f *FuncInfo, src []byte, rel string) []mutant {
+	info := f.Info()
+	file := p.Fset.File(f.Decl.Pos())
+	type occ struct{ a, b int }
+	occs := map[*types.Var][]occ{}
+	order := []*types.Var{}
+	ast.Inspect(f.Decl, func(n ast.Node) bool {
+		id, ok := n.(*ast.Ident)
+		if !ok || id.Name == "_" {
+			return true
+		}
+		var v *types.Var
+		if o, ok := info.Defs[id].(*types.Var); ok {
+			v = o
+		} else if o, ok := info.Uses[id].(*types.Var); ok {
+			v = o
+		}
+		if v == nil || v.IsField() || v.Pkg() == nil || v.Parent() == nil || v.Parent() == v.Pkg().Scope() {
+			return true
+		}
+		if !(v.Pos() >= f.Decl.Pos() && v.Pos() <= f.Decl.End()) {
+			return true
+		}
+		if _, seen := occs[v]; !seen {
+			order = append(order, v)
+		}
+		occs[v] = append(occs[v], occ{file.Offset(id.Pos()), file.Offset(id.End())})
+		return true
+	})
+	// implicit uses (struct literal shorthand does not exist in Go; type switch symbolic vars have several objects
+	// sharing one identifier: skip variables whose definition identifier is shared)
+	var out []mutant
+	for _, v := range order {
+		os := occs[v]
+		sort.Slice(os, func(i, j int) bool { return os[i].a < os[j].a })
+		var sb strings.Builder
+		last := os[0].a
+		first := os[0].a
+		end := os[len(os)-1].b
+		for _, o := range os {
+			sb.Write(src[last:o.a])
+			sb.WriteString(v.Name() + "Rnq")
+			last = o.b
+		}
+		out = append(out, mutant{File: rel, Func: f.ID, Line: p.Fset.Position(v.Pos()).Line, Op: "rename-local", From: v.Name(), To: sb.String(), off0: first, off1: end})
+	}
+	return out
+}
+
 func enclosingBreakTarget(f *FuncInfo, n ast.Node) ast.Node {
 	for x := f.parentOf(n); x != nil; x = f.parentOf(x) {
 		switch x.(type) {
@@ -262,6 +313,9 @@ func siblingConst(o *types.Const) string {
 }
 
 // runMutationSweep: coordinator. Mutants are evaluated by worker subprocesses (bounded memory), `par` at a time.
+// sweepRenames selects the behaviour-preserving rename variants instead of the breaking operators.
+var sweepRenames bool
+
 func runMutationSweep(repo, verif, prop string, par, limit int) int {
 	spec := registry[prop]
 	if spec == nil {
@@ -282,7 +336,11 @@ func runMutationSweep(repo, verif, prop string, par, limit int) int {
 			}
 			srcs[abs] = b
 		}
-		all = append(all, genMutants(p, f, srcs[abs], rel)...)
+		if sweepRenames {
+			all = append(all, genRenames(p, f, srcs[abs], rel)...)
+		} else {
+			all = append(all, genMutants(p, f, srcs[abs], rel)...)
+		}
 	}
 	// a mutant site shared by several functions (literals) would be duplicated: dedupe on (file, offsets, to)
 	seen := map[string]bool{}
@@ -388,8 +446,21 @@ func runMutationSweep(repo, verif, prop string, par, limit int) int {
 		"note": "survivors are NOT violations: a mutant may leave the property intact; they are the reading list for clauses not yet covered",
 	}
 	_ = os.MkdirAll(filepath.Join(verif, "mutation"), 0o755)
+	name := prop + ".json"
+	if sweepRenames {
+		// here "detected" means FALSE ALARM: list them
+		var fa []mutantResult
+		for _, r := range results {
+			if r.Status == "detected" || r.Status == "stillborn" {
+				fa = append(fa, r)
+			}
+		}
+		rep = map[string]interface{}{"property": prop, "variants": len(ms), "counts": counts,
+			"false_alarms_or_unparsable": fa, "note": "consistent renames of locals/parameters/results: behaviour is unchanged, so every report is a false alarm"}
+		name = prop + ".renames.json"
+	}
 	b, _ := json.MarshalIndent(rep, "", " ")
-	_ = os.WriteFile(filepath.Join(verif, "mutation", prop+".json"), b, 0o644)
+	_ = os.WriteFile(filepath.Join(verif, "mutation", name), b, 0o644)
 	fmt.Printf("property=%s mutants=%d stillborn=%d detected=%d survived=%d worker-failed=%d detected/viable=%.2f\n", prop, len(ms), counts["stillborn"], counts["detected"], counts["survived"], counts["worker-failed"], score)
 	return 0
 }
@@ -438,7 +509,7 @@ func runMutantWorker(inPath, outPath, prop, repo string) int {
 			p, ok, why := base0.withFile(abs, []byte(mutated))
 			if !ok {
 				if strings.Contains(why, "does not type-check") {
-					r.Status = "stillborn"
+					r.Status, r.By = "stillborn", why
 					return
 				}
 				p = loadProg(repo, "", map[string][]byte{abs: []byte(mutated)})
